@@ -205,7 +205,11 @@ func (l *callLog) Write(p []byte) (int, error) {
 		if l.split.Intn(3) == 0 {
 			k = 1 + l.split.Intn(len(p))
 		}
-		n, err := l.Conn.Write(p[:k])
+		chunk := append([]byte{}, p[:k]...) // a buffer the caller reuses once Write has returned
+		n, err := l.Conn.Write(chunk)
+		for i := range chunk {
+			chunk[i] = 0xA5
+		}
 		l.mu.Lock()
 		l.wrote = append(l.wrote, p[:k]...)
 		es := "none"
